@@ -112,3 +112,23 @@ func nowClosing(doc *ref.Doc, today ref.Date, minuteOfDay int) (extra []int, clo
 	}
 	return extra, closedAny, true
 }
+
+// cliAgrees runs the same command through the complete CLI path (kong decoding, main.Run, hook H3) and demands the
+// same outcome and stdout as the struct path produced. It reports a violation and returns false otherwise.
+func cliAgrees(e *core.Env, w map[string]any, args []string, cpus int, theme, configFile string, clock time.Time, structOut string, structFailed bool) bool {
+	res := obs.RunCLI(obs.CLIEnv{ConfigDir: e.Dir + "/cfg", Cpus: cpus, Theme: theme, ConfigFile: configFile, Clock: clock}, args...)
+	if res.Panic != nil {
+		e.Violation("cli-panic: "+res.Panic.Site(), fmt.Sprintf("`klog %s` panicked: %s", strings.Join(args, " "), res.Panic.Value), w)
+		return false
+	}
+	if (res.Code != 0) != structFailed {
+		e.Violation("cli-path-outcome-differs", fmt.Sprintf("`klog %s` through the full CLI exits with %d (%s), the command itself reported failure=%v", strings.Join(args, " "), res.Code, trunc(res.Err, 200), structFailed), w)
+		return false
+	}
+	if !structFailed && res.Out != structOut {
+		e.Violation("cli-path-output-differs", fmt.Sprintf("`klog %s` through the full CLI prints\n%s\nthe command invoked with the same (decoded) arguments prints\n%s", strings.Join(args, " "), trunc(res.Out, 800), trunc(structOut, 800)), w)
+		return false
+	}
+	e.Count("cases_also_through_full_cli", 1)
+	return true
+}
